@@ -97,6 +97,14 @@ func runJob(j *Job, res *os.File) Result {
 	}
 	rt := runtimeFor(j.Engine)
 	out := Result{ID: j.ID}
+	if strings.HasPrefix(p.Mem, "imported") {
+		owner, err := rt.InstantiateWithConfig(ctx, p.ownerBytes(), wazero.NewModuleConfig().WithName("owner"))
+		if err != nil {
+			out.Err = "instantiate owner: " + err.Error()
+			return out
+		}
+		defer owner.Close(ctx)
+	}
 	cm, err := rt.CompileModule(ctx, p.wasmBytes())
 	if err != nil {
 		out.Err = "compile: " + err.Error()
